@@ -122,6 +122,17 @@ func (lr *lifeRun) quiescentObs() LObs {
 		o.GateCount = gs.GameCount
 		o.GateN = len(gs.Participants)
 		o.GateReady = gateAllReady(g)
+		// (while the completion callback of the gate is still at work - an open that is being retried - the ready group has not
+		// yet recorded the last answer; the gate's own record has)
+		if !o.GateReady && len(gs.Participants) > 0 {
+			all := true
+			for _, p := range gs.Participants {
+				if !p.IsReady {
+					all = false
+				}
+			}
+			o.GateReady = all
+		}
 	}
 	return o
 }
@@ -211,7 +222,20 @@ func runLifeCase(c *LCase) {
 			d.te.PlayerReserve(pt.JoinPlayer{PlayerID: pid(i + 1), RedeemChips: chips, Seat: -1})
 		}
 	}
-	d.JoinAll()
+	lateJoiner := ""
+	if c.Directed == "late_join" {
+		// everybody but the last player sits in now; the last one only after the first open has been refused for want of players
+		ps := d.te.GetTable().State.PlayerStates
+		for i, p := range ps {
+			if i < len(ps)-1 {
+				d.JoinAndSettle(p.PlayerID)
+			} else {
+				lateJoiner = p.PlayerID
+			}
+		}
+	} else {
+		d.JoinAll()
+	}
 	d.Quiesce(quiesceLimit)
 	d.takeEvents()
 	next := n + 1
@@ -220,6 +244,7 @@ func runLifeCase(c *LCase) {
 		pol = &Policy{R: r.Fork(3), FoldPct: 0, AllinPct: 100, RaisePct: 0}
 	}
 	arrivals := 0
+	setupRNG := NewRNG(c.Seed ^ 0x51ed2701) // a stream of its own
 	step := func(op string, f func(s *LStep)) *LStep {
 		s := LStep{Op: op, Pre: lr.quiescentObs()}
 		f(&s)
@@ -271,6 +296,31 @@ func runLifeCase(c *LCase) {
 			d.Quiesce(quiesceLimit)
 			d.takeEvents()
 		}
+	}
+	if c.Directed == "late_join" && !started && lateJoiner != "" {
+		// the first hand is set up for both players although only one has sat in: the open is refused (the seat manager cannot
+		// place the buttons) and retried every 3 s; the second player sits in during that wait; the hand the retry opens is hand 1
+		started = true
+		step("start", func(s *LStep) { d.te.StartTableGame() })
+		step("setup", func(s *LStep) {
+			parts := map[string]int{}
+			for i, p := range d.te.GetTable().State.PlayerStates {
+				parts[p.PlayerID] = i
+			}
+			s.SetupN = len(parts)
+			d.te.SetUpTableGame(1, parts)
+		})
+		// (the signal of somebody who has not sat in is refused: the gate completes by its own time-out)
+		step("timeout", func(s *LStep) {})
+		time.Sleep(time.Duration(200+r.Intn(800)) * time.Millisecond)
+		// the second player sits in, and the engine's own retry (within 3 s) is observed from the state that leaves
+		step("retry_wait", func(s *LStep) {
+			d.JoinAndSettle(lateJoiner)
+			s.Pre.LiveIn++
+			for w := 0; w < 45 && d.te.GetTable().State.GameCount == 0; w++ {
+				time.Sleep(100 * time.Millisecond)
+			}
+		})
 	}
 	if c.Directed == "late_level" && !started {
 		// the blinds are not (all) set when the game is started: the first open is refused and retried every 3 s; the
@@ -426,7 +476,45 @@ func runLifeCase(c *LCase) {
 				}
 			}
 			if c.ContInterval == 0 {
-				step("play", func(s *LStep) { d.Advance(pol) })
+				step("play", func(s *LStep) {
+					if setupRNG.Chance(1, 6) {
+						// should the hand be settled in this step: from inside the settlement notification the next hand is set up by an
+						// outside caller and everybody signals at once, and the listener takes its time - the gate completes while the
+						// table is still in the settled status; no hand may open before this one has been put away
+						var once sync.Once
+						d.tap = func(t *pt.Table) {
+							if t.State.Status != pt.TableStateStatus_TableGameSettled {
+								return
+							}
+							once.Do(func() {
+								parts := map[string]int{}
+								i := 0
+								for _, p := range t.State.PlayerStates {
+									if p.Bankroll > 0 && p.IsIn {
+										parts[p.PlayerID] = i
+										i++
+									}
+								}
+								alive := 0
+								for _, p := range t.State.PlayerStates {
+									if p.Bankroll > 0 {
+										alive++
+									}
+								}
+								// (only when the table will deal on: a table that pauses keeps the outside set-up, which is another story)
+								if len(parts) >= 2 && alive >= t.Meta.TableMinPlayerCount && t.State.BlindState.Level != -1 {
+									d.te.SetUpTableGame(t.State.GameCount+1, parts)
+									for id := range parts {
+										d.te.PlayerSettlementFinish(id)
+									}
+									time.Sleep(700 * time.Millisecond)
+								}
+							})
+						}
+					}
+					d.Advance(pol)
+					d.tap = nil
+				})
 			} else {
 				// the decision "pause or deal on" is taken only when the continue interval has elapsed: whatever happens
 				// inside the interval (a re-buy, a newcomer, a blind update, also to a break) must be taken into account
@@ -572,6 +660,13 @@ func genLife(root *RNG, i int, seed uint64, mode string) LCase {
 		c.Mode, c.Min, c.JoinAtCreate = "ct", 2, false
 		c.Max = 3 + r.Intn(7)
 		c.Init = TBlind{Level: 1, Ante: int64(r.Intn(2) * 5), Dealer: 0, SB: 10, BB: 20}
+		return c
+	}
+	if mode == "late_join" {
+		c.Directed = "late_join"
+		c.Mode, c.Min, c.JoinAtCreate, c.ContInterval = "ct", 2, false, 0
+		c.Max = 2 // two seats, two players: until the second has sat in nobody can be dealt in
+		c.Init = TBlind{Level: 1, Ante: 0, Dealer: 0, SB: 10, BB: 20}
 		return c
 	}
 	if mode == "late_level" || r.Chance(1, 12) {
